@@ -154,6 +154,8 @@ class Sched:
         self.trace = []  # recorded events
         self.end = None  # ("finished"|"aborted"|"crashed", detail)
         self.faults = 0
+        self.early = 0        # faults that hit a worker IN its batch (its sentinel had not yet reached the pipe)
+        self.last_early = 0
         self.written = []
         self.strict = True
         self.starting = False
@@ -360,10 +362,13 @@ class Sched:
             p.pending = None
             p.release("kill")
             p.wait_settled()
+        self.last_early = 0 if (p.state == "done" and not p.buf) or getattr(p, "early", False) else 1
+        p.early = True
         p.state = "dead"
         p.code = -9
         p.buf = []
         self.faults += 1
+        self.early += self.last_early
         return None
 
     def a_WCrash(self, w):
@@ -379,6 +384,8 @@ class Sched:
         #  e.g. a sentinel sent from a finally clause; the strict replay reports that at the next step)
         p.state = "failing"
         self.faults += 1
+        self.early += 1
+        p.early = True
         return None
 
     def a_WFailExit(self, w):
@@ -452,6 +459,9 @@ class Sched:
         """a worker whose target raised by itself (bad data, sys.exit(n) ...) is a failing worker, exactly like one in which
         a crash was injected: it flushes what it has put, then exits with a non-zero code - also after its sentinel"""
         if p.pending is not None and p.pending[0] == "raised" and p.state in ("run", "done"):
+            if p.state == "run":
+                self.early += 1
+                p.early = True
             p.state = "failing"
             self.faults += 1
             self.trace.append({"t": "natural_failure", "w": p.w, "exc": str(p.pending[1])[:80]})
@@ -488,6 +498,7 @@ class Sched:
                 if p.daemon:
                     self.do("WKill", p.w)
                     self.faults -= 1
+                    self.early -= self.last_early
                     n += 1
                     continue
                 for t in ("WSentinel", "WPut", "WFlush", "WExit", "WFailExit"):
@@ -760,6 +771,7 @@ def run_schedule(argv, cap, C, labels, max_idle_calls=400):
                 if s.alive(obj):
                     s.do("WKill", obj.w)
                     s.faults -= 1          # the parent's own doing, not an injected fault
+                    s.early -= s.last_early
                 s.reply(None)
             else:
                 s.reply(None)
@@ -769,8 +781,8 @@ def run_schedule(argv, cap, C, labels, max_idle_calls=400):
                 hang = f"{idle} parent calls without any change after the schedule was used up"
                 break
         end = s.end if s.end else ("hang", hang or "")
-        return {"end": end[0], "end_detail": end[1], "written": list(s.written), "faults": s.faults, "diverged": diverged or ""}
+        return {"end": end[0], "end_detail": end[1], "written": list(s.written), "faults": s.faults, "early": s.early, "diverged": diverged or ""}
     except Divergence as d:
-        return {"end": "stuck", "end_detail": d.clause + ":" + str(d.detail)[:120], "written": list(s.written), "faults": s.faults, "diverged": diverged or ""}
+        return {"end": "stuck", "end_detail": d.clause + ":" + str(d.detail)[:120], "written": list(s.written), "faults": s.faults, "early": s.early, "diverged": diverged or ""}
     finally:
         s.finish()
